@@ -1001,4 +1001,149 @@ Section WInv.
       + intros [[a Ha]|Ha]; discriminate.
       + intros [[a Ha]|Ha]; discriminate.
   Qed.
+
+  (* ---------------------------------------------------------------- the user side: building blocks *)
+  Lemma nth_set_nth_inv {A} (i j : nat) (x k' : A) l :
+    nth_error (set_nth i x l) j = Some k' ->
+    (j <> i /\ nth_error l j = Some k') \/ (j = i /\ k' = x /\ nth_error l i <> None).
+  Proof.
+    rewrite nth_set_nth. destruct (Nat.eqb_spec j i) as [->|Hn]; [|auto].
+    destruct (nth_error l i); cbn; [|discriminate]. intros [= <-]. right. repeat split. discriminate.
+  Qed.
+
+  Lemma GW_closed_intro d s :
+    rx_closed s = true -> waiters s = [] ->
+    (forall i k, nth_error (calls s) i = Some k -> c_phase k <> PAcquiring) -> GW d s.
+  Proof.
+    intros Hc Hw Hn. constructor; rewrite ?Hw, ?Hc; try discriminate.
+    - intros w [].
+    - constructor.
+    - intros i k Hk Hp. exfalso. eapply Hn; eassumption.
+    - reflexivity.
+  Qed.
+  Lemma GW_closed_elim d s :
+    GW d s -> rx_closed s = true ->
+    waiters s = [] /\ (forall i k, nth_error (calls s) i = Some k -> c_phase k <> PAcquiring).
+  Proof.
+    intros W Hc. pose proof (w_closed _ _ W Hc) as Hw. split; [exact Hw|].
+    intros i k Hk Hp. pose proof (w_in _ _ W i k Hk Hp) as X. rewrite Hw in X. exact X.
+  Qed.
+  (* in a closed queue any phase change that does not create a waiter keeps GW *)
+  Lemma GW_set_phase_closed d e s i p :
+    GW d s -> rx_closed s = true -> p <> PAcquiring -> GW e (set_phase s i p).
+  Proof.
+    intros W Hc Hp. destruct (GW_closed_elim _ _ W Hc) as [Hw Hn].
+    apply GW_closed_intro; rewrite ?sp_rx_closed, ?sp_waiters; try assumption.
+    intros j k' Hj. destruct (nth_set_phase_inv _ _ _ _ _ Hj) as (k & Ek & _ & [[_ ->]|[_ Hph]]).
+    - eapply Hn, Ek.
+    - congruence.
+  Qed.
+
+  Lemma IX_set_phase s i p :
+    IX s -> p <> PNew -> p <> PAcquiring -> p <> PAssigned ->
+    (forall k, nth_error (calls s) i = Some k ->
+       c_phase k <> PAcquiring /\ c_phase k <> PAssigned /\ (idp p = true -> idp (c_phase k) = true)) ->
+    IX (set_phase s i p).
+  Proof.
+    intros [A C W] P1 P2 P3 H. constructor.
+    - apply GA_set_phase; [exact A|exact P1|]. intros k Hk. apply (H k Hk).
+    - apply GC_set_phase; [exact C|]. intros k Hk. apply (H k Hk).
+    - apply GW_set_phase; [exact W| |exact P2|exact P3]. intros k Hk. destruct (H k Hk) as (X & Y & _). auto.
+  Qed.
+
+  (* cancel + finish *)
+  Lemma GC_finish x s i id p :
+    calls x = calls s -> next_id x = next_id s ->
+    (forall y, In y (cancels x) -> In y (cancels s) \/ y = id) ->
+    GC s -> id < next_id s ->
+    (forall j kj, nth_error (calls s) j = Some kj -> j <> i -> idp (c_phase kj) = true -> c_id kj <> id) ->
+    idp p = false -> GC (set_phase x i p).
+  Proof.
+    intros E1 E2 Hc [C1 C2] Hlt Hne Hp. constructor; rewrite ?sp_cancels, ?sp_next_id, ?E2.
+    - intros y Hy. destruct (Hc y Hy) as [Hy'| ->]; [apply C1, Hy'|exact Hlt].
+    - intros y j k' Hy Hj Hi.
+      destruct (nth_set_phase_inv _ _ _ _ _ Hj) as (k & Ek & Eid & [[Hn ->]|[-> Hph]]); [|congruence].
+      rewrite E1 in Ek. destruct (Hc y Hy) as [Hy'| ->]; [eapply C2; eassumption|eapply Hne; eassumption].
+  Qed.
+
+  Lemma push_cancel_in s id y : In y (cancels (push_cancel s id)) -> In y (cancels s) \/ y = id.
+  Proof.
+    unfold push_cancel. destruct (dropped s); [auto|]. cbn [cancels upd_cancels].
+    rewrite in_app_iff. cbn. tauto.
+  Qed.
+
+  Definition fs_pre s id := push_cancel (slot_rx_close (slot_tx_drop s id) id) id.
+  Lemma fail_shutdown_eq s i id :
+    fail_shutdown s i id = (CDone OShutdown, set_phase (fs_pre s id) i PDone).
+  Proof. reflexivity. Qed.
+  Ltac pc := unfold fs_pre, push_cancel; destruct (dropped _); reflexivity.
+  Lemma fsp_calls s id : calls (fs_pre s id) = calls s. Proof. pc. Qed.
+  Lemma fsp_next_id s id : next_id (fs_pre s id) = next_id s. Proof. pc. Qed.
+  Lemma fsp_waiters s id : waiters (fs_pre s id) = waiters s. Proof. pc. Qed.
+  Lemma fsp_permits s id : permits (fs_pre s id) = permits s. Proof. pc. Qed.
+  Lemma fsp_rx_closed s id : rx_closed (fs_pre s id) = rx_closed s. Proof. pc. Qed.
+  Lemma fsp_queue s id : queue (fs_pre s id) = queue s. Proof. pc. Qed.
+  Lemma fsp_q_cap s id : q_cap (fs_pre s id) = q_cap s. Proof. pc. Qed.
+  Lemma fsp_inflight s id : inflight (fs_pre s id) = inflight s. Proof. pc. Qed.
+  Lemma fsp_cancels_in s id y : In y (cancels (fs_pre s id)) -> In y (cancels s) \/ y = id.
+  Proof. unfold fs_pre. intro H. apply push_cancel_in in H. exact H. Qed.
+  Lemma loc_push_cancel s id y : loc (push_cancel s id) y <-> loc s y.
+  Proof. unfold push_cancel. destruct (dropped s); [tauto|]. unfold loc, get_slot. cbn. tauto. Qed.
+  Lemma loc_fs_pre s id y : loc s y -> loc (fs_pre s id) y.
+  Proof. intro L. unfold fs_pre. apply loc_push_cancel, loc_slot_rx_close, loc_slot_tx_drop, L. Qed.
+
+  Lemma GAd_fs_pre d s id : GAd d s -> GAd d (fs_pre s id).
+  Proof. apply GA_frame; [apply fsp_calls|apply fsp_next_id]. Qed.
+  Lemma GW_fs_pre d s id : GW d s -> GW d (fs_pre s id).
+  Proof.
+    apply GW_frame; [apply fsp_calls|apply fsp_waiters|apply fsp_permits|apply fsp_rx_closed
+                    |rewrite fsp_queue; reflexivity|apply fsp_q_cap].
+  Qed.
+  Lemma GL_fs_finish s i id p : GL s -> p <> PAwaiting -> GL (set_phase (fs_pre s id) i p).
+  Proof.
+    intros G Hp. apply GL_set_phase; [|congruence].
+    eapply GL_mono; [apply fsp_calls|intro; apply loc_fs_pre|exact G].
+  Qed.
+
+  (* polling the oneshot *)
+  Lemma poll_slot_cases s i id :
+    poll_slot s i id = (CPending, s) \/
+    exists o, poll_slot s i id = (CDone o, set_phase (slot_rx_close s id) i PDone).
+  Proof.
+    unfold poll_slot. destruct (sl_val _); [right; eauto|]. destruct (sl_tx_gone _); [right; eauto|left; reflexivity].
+  Qed.
+
+  Lemma poll_slot_UI s i id :
+    IX s -> GL s ->
+    (forall k, nth_error (calls s) i = Some k -> c_phase k = PAwaiting) ->
+    let s' := snd (poll_slot s i id) in
+    IX s' /\ GL s' /\ rx_closed s' = rx_closed s /\ queue s' = queue s.
+  Proof.
+    intros X G Hk. destruct (poll_slot_cases s i id) as [E|[o E]]; rewrite E; cbn [snd]; [auto|].
+    split; [|split; [|split; [rewrite sp_rx_closed; reflexivity|rewrite sp_queue; reflexivity]]].
+    - apply IX_set_phase; [apply IX_slot_rx_close, X|discriminate..|].
+      cbn [calls slot_rx_close set_slot upd_slots]. intros k Ek. rewrite (Hk k Ek).
+      repeat split; discriminate.
+    - apply GL_set_phase; [apply GL_slot_rx_close, G|discriminate].
+  Qed.
+
+  Lemma GW_enqueue d d' s i k q :
+    GW d s -> nth_error (calls s) i = Some k -> c_phase k <> PAcquiring ->
+    (d + b2n (is_asg k) = S d')%nat ->
+    GW d' (set_phase (upd_q s (permits s) (queue s ++ [q]) (waiters s) (rx_closed s)) i PAwaiting).
+  Proof.
+    intros [A B C D E F] Ek Hp Hd.
+    set (s1 := upd_q s (permits s) (queue s ++ [q]) (waiters s) (rx_closed s)).
+    constructor; rewrite ?sp_waiters, ?sp_rx_closed, ?sp_permits, ?sp_queue, ?sp_q_cap;
+      cbn [s1 waiters rx_closed permits queue q_cap upd_q]; try assumption.
+    - intros w Hw. destruct (A w Hw) as (k' & Ek' & Ep'). exists k'. split; [|exact Ep'].
+      rewrite nth_set_phase. destruct (Nat.eqb_spec w i) as [->|]; [congruence|exact Ek'].
+    - intros j k' Hj Hph.
+      destruct (nth_set_phase_inv _ _ _ _ _ Hj) as (k0 & Ek0 & _ & [[Hn ->]|[-> Hph']]); [|congruence].
+      eapply D; eassumption.
+    - intro Hc. specialize (F Hc).
+      pose proof (count_set_phase is_asg s1 i PAwaiting k Ek) as H.
+      cbn [b2n is_asg with_phase c_phase] in H. cbn [s1 calls upd_q] in H.
+      rewrite app_length. cbn [length]. lia.
+  Qed.
 End WInv.
